@@ -380,8 +380,9 @@ def cases_for_program(rng, p, tier, heavy=True):
                 u = rng.random()
                 if u < 0.1:
                     c['opts']['min_iter'] = c['opts']['max_iter'] + 1
-                elif u < 0.2:
-                    c['opts']['offset'] = rng.choice([-1, 1])       # accepted and ignored by the linker (C08)
+                elif u < 0.3:
+                    pp = t if t >= 0 else t + n
+                    c['opts']['offset'] = rng.choice([-1, 1, -1, 1, -pp - 1, n - pp])       # honoured since fix 6298cba
                 cases.append(c)
         # (b''') the LABEL entry points on every supported span type: solve_period(label) at every position and for a label
         # that is not in the span, solve(start=, end=) by labels — list / tuple / range / NumPy array / pandas Index
@@ -1237,6 +1238,12 @@ def _oracle_linker(case, obs):
             bad('infeasible-period-served', 'linker.solve_t(%d) on a %d-period span with lags=%d leads=%d must raise IndexError and change nothing: got %s after %d pass(es), untouched=%s'
                 % (t, n, L, Ld, out[:2], obs['npasses'], untouched))
         return fails
+    if o['offset'] != 0 and not 0 <= p + o['offset'] < n:
+        # since fix 6298cba the linker honours `offset`: an offset pointing outside the span is rejected like a model's
+        if out[:2] != ['raise', 'IndexError'] or not untouched:
+            bad('offset-out-of-span', 'linker.solve_t(%d, offset=%d) on a %d-period span must raise IndexError and change nothing: got %s, untouched=%s'
+                % (t, o['offset'], n, out[:2], untouched))
+        return fails
     if out[:2] == ['raise', 'IndexError']:
         bad('feasible-period-rejected', 'linker.solve_t(%d) raised IndexError although the period is feasible' % t)
     if core_ch - {p}:
@@ -1248,11 +1255,12 @@ def _oracle_linker(case, obs):
                 bad('unselected-submodel-touched', 'submodel %r is not among submodels=%s but changed (cells %s, status at %s, %d pass(es))'
                     % (k, sel, sorted(ch)[:3], sorted(stc), len(sb['plogs'])))
             continue
+        seeded = {(i, p) for i in sb['endo']} if o['offset'] != 0 else set()      # the offset seeding of period t (fix 6298cba)
         for (i, q) in sorted(ch):
-            if i not in lhs:
+            if i not in lhs and (i, q) not in seeded:
                 bad('unassigned-row-changed', 'submodel %r: cell %s[%d] changed although no equation assigns %s' % (k, names[i], q, names[i]))
                 break
-        extra = sorted(ch - {(i, p + kk) for i, ks in lhs.items() for kk in ks})
+        extra = sorted(ch - {(i, p + kk) for i, ks in lhs.items() for kk in ks} - seeded)
         if extra:
             bad('cell-outside-frame', 'submodel %r: linker.solve_t(%d) changed %s[%d], which no equation assigns for this period' % (k, t, names[extra[0][0]], extra[0][1]))
         if stc - {p}:
